@@ -88,7 +88,7 @@ def decVariant (pool : Array Oracle) (s : String) : Option Variant :=
   match s.splitOn ";" with
   | [fls, avail, opts, rows, cols] =>
     match fls.splitOn " ", opts.splitOn " " with
-    | [lr, mc, fr], [bx, sh, sf, se, sl, leading, pt, pr, pb, pl, pe, cp, ex, w, mw, ti, ca] =>
+    | [lr, mc, fr, nc, fneg], [bx, sh, sf, se, sl, leading, pt, pr, pb, pl, pe, cp, ex, w, mw, ti, ca] =>
       match lookupBox bx with
       | none => none
       | some box =>
@@ -112,7 +112,9 @@ def decVariant (pool : Array Oracle) (s : String) : Option Variant :=
           let okShape := colsL.all (fun co =>
             co.2.length == co.1.cells.length + (if showHeader then 1 else 0) + (if showFooter then 1 else 0))
           if !okShape then none
-          else some { fl := { leadingRepeat := decBool lr, minWidthCapsExpand := decBool mc, fixedRawMaximum := decBool fr }, avail := decInt avail, t := t,
+          else
+            let flags : Flags := { leadingRepeat := decBool lr, minWidthCapsExpand := decBool mc, fixedRawMaximum := decBool fr, noColumnsAsserts := decBool nc, flexNegative := decBool fneg }
+            some { fl := flags, avail := decInt avail, t := t,
                       colOracles := colsL.map (·.2), titleO, captionO,
                       wf := colsL.all (fun co => co.1.cells.length ≤ rowsL.length) }
     | _, _ => none
@@ -139,14 +141,43 @@ def Variant.inRange (v : Variant) (r : Rendered) : Bool :=
 
 def encRendered (r : Rendered) : String := "W" ++ encInts r.widths ++ "L" ++ encStrList r.lines
 
+/-- `Table.__rich_measure__(console, avail)` as `|M<min> <max>`; `|M?` when a cell would be measured outside its table,
+`|Merr:AssertionError` when `ratio_distribute` asserts. -/
+def Variant.measureAns (v : Variant) : String :=
+  let t := v.t
+  let maxWidth := t.width.getD v.avail
+  if maxWidth < 0 then "|M0 0"
+  else
+    let inner := maxWidth - t.extraWidth
+    match t.calcWidths v.fl inner with
+    | none => "|Merr:AssertionError"
+    | some ws =>
+      let mw := ws.sum
+      -- consultations: the ones of calcWidths (first pass at `inner`, re-measure) and the final measure at `mw`
+      let firstOk := inner < 1 ||
+        ((t.columns.zip v.colOracles).all (fun co => co.1.width.isSome || co.2.all (·.has inner.toNat)))
+      let reOk := match t.firstWidths v.fl inner with
+        | some ws0 => if ws0.sum > inner then
+            ((t.shrinkPre ws0 inner).1.zip (t.columns.zip v.colOracles)).all
+              (fun wco => wco.1 < 1 || wco.2.1.width.isSome || wco.2.2.all (·.has wco.1.toNat))
+          else true
+        | none => true
+      let lastOk := mw < 1 ||
+        ((t.columns.zip v.colOracles).all (fun co => co.1.width.isSome || co.2.all (·.has mw.toNat)))
+      if firstOk && reOk && lastOk then
+        match t.richMeasure v.fl v.avail with
+        | some m => "|M" ++ encMeas m
+        | none => "|Merr:AssertionError"
+      else "|M?"
+
 def runVariant (pool : Array Oracle) (s : String) : String :=
   match decVariant pool s with
   | none => "unmodelled"
   | some v =>
     if !v.wf then "unmodelled"
-    else match v.t.render v.fl cw v.avail with
+    else (match v.t.render v.fl cw v.avail with
       | none => "err:AssertionError"
-      | some r => if v.inRange r then encRendered r else "unmodelled"
+      | some r => if v.inRange r then encRendered r else "unmodelled") ++ v.measureAns
 
 def encPad : Option (Int × Int × Int × Int) → String
   | none => "-"
